@@ -538,6 +538,10 @@ def main(run):
         if not bad:
             raise lib.CheckBroken("go build of the C06 driver failed: " + err[-3000:])
         report_l01()
+        # the findings are still measured, with a driver of the witness packages alone
+        wobs2, werr = run_driver(run, mod, "wdriver", wclients, wcases) if wcases else ([], "")
+        if wobs2 is not None:
+            run.replay_findings(kf.handlers(run, shoot, mod, wit, wit_state, wcases, wobs2))
         return run.finish({"evaluations": 0, "distinct_nontrivial": 0, "rule": "build failed", "samples": [],
                            "traces_validated_against_impl": 0, "programs": len(pkgs)})
     wobs = obs[len(cases):]
@@ -658,8 +662,9 @@ ASSUMPTIONS = [
     "args_in_guard and the link hypotheses (parse_path/parse_alias of the doc comment give the structured directive, "
     "kind_of classifies every parameter)",
     "open findings keep their input class out of the comparison stream and are replayed on every run: see known_findings "
-    "K_rest_body_no_struct, K_rest_ptr_map, K_rest_nil_struct_ptr, K_rest_alias_dup, K_rest_struct_other_file, "
-    "K_rest_path_percent, K_rest_subst_rescan, K_rest_header_value_trim, K_rest_two_maps",
+    "K_rest_ptr_map, K_rest_nil_struct_ptr, K_rest_path_percent, K_rest_subst_rescan (and K_rest_alias_dup, owned by C07); "
+    "repaired and replayed as regressions: K_rest_ctx_global, K_rest_body_no_struct, K_rest_two_maps, "
+    "K_rest_header_value_trim, K_rest_struct_other_file",
     "base URLs of the cases carry no query string and no escapes; path arguments carry no percent sign (K_rest_path_percent)",
 ]
 
